@@ -66,6 +66,7 @@ func (f *PostProcessorRegistrationDelegate) InvokeBeanFactoryPostProcessors(fact
 func (f *PostProcessorRegistrationDelegate) applyDefinitionRegistryPostProcessors(factory container.Factory) error {
 	components := factory.GetRegisteredComponents()
 	var wg sync.WaitGroup
+	var errsMu sync.Mutex
 	for _, processor := range factory.GetDefinitionRegistryPostProcessors() {
 		var errs []error
 		wg.Add(len(components))
@@ -74,7 +75,9 @@ func (f *PostProcessorRegistrationDelegate) applyDefinitionRegistryPostProcessor
 				defer wg.Done()
 				err := processor.PostProcessDefinitionRegistry(factory.GetDefinitionRegistry(), component, name)
 				if err != nil {
+					errsMu.Lock()
 					errs = append(errs, errors.WithMessage(err, name))
+					errsMu.Unlock()
 				}
 			}(name, component)
 		}
